@@ -285,15 +285,22 @@ def search(seed, tier):
         n = 4
         full = lambda v: torch.full((n, 1), v, requires_grad=True)
         s = torch.tensor([[rng.uniform(0, 1)] for _ in range(n)])
-        cond = DirichletBVP2D(x0, lambda y: F(full(x0), y), x1, lambda y: F(full(x1), y),
-                              y0, lambda x: F(x, full(y0)), y1, lambda x: F(x, full(y1)))
+        # boundary data are stateful Python callables (here: a continuation amplitude the user changes between evaluations);
+        # each evaluation must use the data as they are at that time
+        amp = [1.0]
+        like = lambda z, v: torch.full_like(z, v)
+        cond = DirichletBVP2D(x0, lambda y: amp[0] * F(like(y, x0), y), x1, lambda y: amp[0] * F(like(y, x1), y),
+                              y0, lambda x: amp[0] * F(x, like(x, y0)), y1, lambda x: amp[0] * F(x, like(x, y1)))
         cond.ith_unit = unit
         ys = (y0 + s * (y1 - y0)).requires_grad_(True); xs = (x0 + s * (x1 - x0)).requires_grad_(True)
-        for nm, X, Y in (('x0', full(x0), ys), ('x1', full(x1), ys), ('y0', xs, full(y0)), ('y1', xs, full(y1))):
-            got = cond.enforce(net, X, Y).detach(); want = F(X, Y).detach()
-            if not torch.allclose(got, want, rtol=1e-10, atol=1e-10 * (1 + float(want.abs().max()) + float(got.abs().max()))):
-                found.append(dict(case='bvp2d', unit=unit, edge=nm, x0=x0, x1=x1, y0=y0, y1=y1, F=[a, b, c, d], s=s.reshape(-1).tolist(),
-                                  got=got.reshape(-1).tolist(), want=want.reshape(-1).tolist()))
+        for amplitude in (1.0, 2.5):
+            amp[0] = amplitude
+            for nm, X, Y in (('x0', full(x0), ys), ('x1', full(x1), ys), ('y0', xs, full(y0)), ('y1', xs, full(y1))):
+                got = cond.enforce(net, X, Y).detach(); want = amplitude * F(X, Y).detach()
+                if not torch.allclose(got, want, rtol=1e-10, atol=1e-10 * (1 + float(want.abs().max()) + float(got.abs().max()))):
+                    found.append(dict(case='bvp2d', unit=unit, edge=nm, x0=x0, x1=x1, y0=y0, y1=y1, F=[a, b, c, d], s=s.reshape(-1).tolist(),
+                                      boundary_data_amplitude=amplitude, evaluation='first' if amplitude == 1.0 else 'second (data changed in between)',
+                                      got=got.reshape(-1).tolist(), want=want.reshape(-1).tolist()))
         tm = draw()
         ts = (tm + 3 * s).requires_grad_(True)
         for m in ('dd', 'dn', 'nd', 'nn'):
